@@ -123,8 +123,8 @@ def apply_user_compiler(world, rs):
         for e in p["entries"]:
             if rs.random() < 0.6:
                 argv = entry_argv(e)
-                if not argv:
-                    continue
+                if not argv or any(a.startswith(("-gencode", "--gpu", "-fsycl")) for a in argv):
+                    continue     # flags of another compiler's definition stay with that compiler
                 argv[0] = rs.choice(["ucc", "ucc", "ucc2"])
                 extra = []
                 if rs.random() < 0.4:
